@@ -56,6 +56,13 @@ from pyttb.pyttb_utils import (
 )
 
 
+def _negated(values: np.ndarray) -> np.ndarray:
+    """Negate values; unsigned integers are widened first (they cannot hold a negative)."""
+    if np.issubdtype(values.dtype, np.unsignedinteger):
+        values = values.astype(np.promote_types(values.dtype, np.int8))
+    return -1 * values
+
+
 class sptensor:
     """
     SPTENSOR Class for sparse tensors.
@@ -2934,7 +2941,7 @@ class sptensor:
             return self.copy()
         return ttb.sptensor.from_aggregator(
             np.vstack((self.subs, other.subs)),
-            np.vstack((self.vals, -1 * other.vals)),
+            np.vstack((self.vals, _negated(other.vals))),
             self.shape,
         )
 
@@ -3013,7 +3020,7 @@ class sptensor:
         sparse tensor of shape (2, 2, 2) with 1 nonzeros and order F
         [1, 1, 1] = -1.0
         """
-        return ttb.sptensor(self.subs, -1 * self.vals, self.shape)
+        return ttb.sptensor(self.subs, _negated(self.vals), self.shape)
 
     def __mul__(self, other):
         """
